@@ -161,10 +161,8 @@ Qed.
 
 Lemma named_keys_roots : forall rs, named_keys (map (fun p => (p, EmptyString)) rs) = [].
 Proof.
-  induction rs as [|p rs IH]; [reflexivity|]. simpl map.
-  destruct (named_keys_cons (p, EmptyString) (map (fun p => (p, EmptyString)) rs)) as (pre & E & [->|P]); rewrite E, IH; [reflexivity|].
-  exfalso. subst pre. unfold named_keys, of_pair in E; simpl in E.
-  destruct (world dir p) as [[n pk]|]; simpl in E; rewrite IH in E; discriminate.
+  unfold named_keys. induction rs as [|p rs IH]; [reflexivity|].
+  simpl. unfold of_pair at 1; simpl. destruct (world dir p) as [[n pk]|]; simpl; exact IH.
 Qed.
 
 Lemma named_keys_app : forall a b, named_keys (a ++ b) = named_keys a ++ named_keys b.
@@ -247,7 +245,7 @@ Qed.
 Theorem exposed_resolves : forall w pk d t, exposes w pk d t -> DS.resolves INFO w t.
 Proof.
   intros w pk d t H. destruct H as [d f H L | d f k g H A E L | p t n pk d f Hi W H L].
-  - split; [now apply (own_target_in d)|]. left. simpl. rewrite (tname_is_decl_name (def_of EmptyString) lpk d f H). now rewrite L.
+  - split; [now apply (own_target_in d)|]. left. rewrite (tname_is_decl_name (def_of EmptyString) lpk d f H). now rewrite L.
   - split; [now apply (own_target_in d)|]. right. exists k, (C.targetName g). split; [|split].
     + rewrite aliases_commute. unfold dupes_of; simpl. rewrite map_map. simpl.
       apply in_map_iff. exists (k, g). split; [simpl; now rewrite tname_local | exact A].
